@@ -429,6 +429,13 @@ class WebSocketApp:
                     return closed(e)
                 else:
                     raise e
+            except Exception as e:
+                # With a custom dispatcher nothing above this callback catches
+                # what the receive raises (a reset, a protocol or payload
+                # error): report it the way the built-in loop does.
+                if custom_dispatcher:
+                    return closed(e)
+                raise
 
             if op_code == ABNF.OPCODE_CLOSE:
                 return teardown(frame)
@@ -469,6 +476,8 @@ class WebSocketApp:
                         or has_pong_arrived_too_late
                     )
                 ):
+                    if custom_dispatcher:
+                        return closed(WebSocketTimeoutException("ping/pong timed out"))
                     raise WebSocketTimeoutException("ping/pong timed out")
             return True
 
